@@ -243,7 +243,7 @@ func (g *richGen) stmt() {
 		g.ln(`do local o%d = setmetatable({id=%d}, {__gc = function(o) emit("gc", o.id) end}); o%d = nil end`, n, n, n)
 	case 15: // global state mutation (E-ISO)
 		g.feat["mutate"] = true
-		sub := g.t.Choose(9)
+		sub := g.t.Choose(12)
 		if sub == 6 && !g.t.Chance(1, 4) {
 			sub = 0 // the collectgarbage mutation hits an open finding: keep it rare
 		}
@@ -270,6 +270,12 @@ func (g *richGen) stmt() {
 			g.ln(`debug.setmetatable(0, {__index = function(n, k) return k end}); emit("x%d", (5).foo); debug.setmetatable(nil, {__call = function() return "nilcall" end})`, n)
 		case 5:
 			g.ln(`package.path = "p%d"; package.loaded["m%d"] = %d; emit("x%d", require("m%d"), package.path)`, n, n, n, n, n)
+		case 9: // a private package.config, used by a module search
+			g.ln(`package.config = "\\\n:\n#\n!\n-\n"; probe(0); emit("x%d", pcall(package.searchpath, "no.mod%d", "./#.lua:./#/x.lua"))`, n, n)
+		case 10: // the defaults as every runtime sees them
+			g.ln(`emit("x%d", package.config, select(2, package.searchpath("no.mod%d", "./?.lua;./?/x.lua")))`, n, n)
+		case 11: // patterns with escaped punctuation (compiled per call)
+			g.ln(`emit("x%d", ("a.b-c(d)%d"):find("%%.b%%-c%%(d%%)"), ("x+y*z"):gsub("[%%+%%*]", "%%%%"), ("k=v;"):match("^(%%w+)%%=(%%w+)%%;"))`, n, n)
 		}
 	}
 }
